@@ -1,4 +1,4 @@
-int gi, gj, g2_cnt, g2_bad, g_lo, g_hi;
+int gi, gj, g2_cnt, g2_bad, g_lo, g_hi, g_at_calls, g_at_x, g_at_y, g_at_pass, g_at_level;
 int nondet_int(void);
 static int bs_c(const struct P2* p, int i) { __CPROVER_assert(0 <= i && i < p->binStart_n, "harness read of binStart in range"); return p->binStart[i]; }
 /* ---- init: levels / bins / binStart ------------------------------------------------------------- */
@@ -12,15 +12,25 @@ void h_init(void) {
   __CPROVER_assert(np >= 2 || bins == 1, "init: one bin without parallelism");
   __CPROVER_assert(np < 2 || (bins / 2 >= np && bins / 2 >= 2 && (bins / 4 < np || bins == 4)), "init: 2^(levels-1) >= numProcessors, minimal");
   __CPROVER_assert(np < 2 || p.squares_n == bins - 1, "init: bins-1 passes of squares");
+#ifdef NO_REC
+  __CPROVER_assert(np < 2 ? g_at_calls == 0 : (g_at_calls == 1 && g_at_x == 0 && g_at_y == 0 && g_at_pass == 0 && 2 <= g_at_level && g_at_level <= 6 && bins == (1 << g_at_level)),
+                   "init: the recursion is started once as addTriangle(0,0,0,levels) with bins == 2^levels, 2 <= levels <= 6");
+#endif
   __CPROVER_assert(bs_c(&p, 0) == 0, "binStart[0] == 0");
   __CPROVER_assert(bs_c(&p, bins) == gs, "binStart[bins] == gridSize");
   int i = nondet_int(); __CPROVER_assume(0 <= i && i < bins);
   __CPROVER_assert(bs_c(&p, i) <= bs_c(&p, i + 1), "binStart monotone: bins partition [0,gridSize)");
   __CPROVER_assert(0 <= bs_c(&p, i) && bs_c(&p, i) <= gs, "binStart within [0,gridSize]");
-  /* ---- addTriangle/addSquare: coverage and conflict-freedom ---- */
-  int nsq = p.nsq;
+}
+/* ---- addTriangle/addSquare for a concrete number of levels LEVELS (2..6): coverage and conflict-freedom.
+   The levels units (h_init, all numProcessors 0..32) show that init starts the recursion exactly as done here. */
+void h_squares(void) {
+  struct P2 p; p.nsq = 0; int np = 2; int bins = 1 << LEVELS;
+  squares_resize(&p, bins - 1);
+  addTriangle(&p, 0, 0, 0, LEVELS);
+  int nsq = p.nsq; __CPROVER_assert(nsq <= NSQ_MAX, "number of squares within the unwinding of the counting loop");
   int r = nondet_int(), c = nondet_int(); __CPROVER_assume(0 <= c && c < r && r < bins);
-  int cnt = 0; for (int s = 0; s < SQ_CAP; s++) if (s < nsq && p.sq_x[s] == c && p.sq_y[s] == r - 1) cnt++;
+  int cnt = 0; for (int s = 0; s < NSQ_MAX; s++) if (s < nsq && p.sq_x[s] == c && p.sq_y[s] == r - 1) cnt++;
   __CPROVER_assert(np < 2 || cnt == ((r / 2 != c / 2) ? 1 : 0), "each pair of bins outside the width-2 diagonal blocks is covered by exactly one square of exactly one pass; pairs inside a diagonal block by none (the triangle task covers them)");
   int s = nondet_int(), t = nondet_int(); __CPROVER_assume(0 <= s && s < nsq && 0 <= t && t < nsq && s != t);
   __CPROVER_assert(0 <= p.sq_x[s] && p.sq_x[s] < p.sq_y[s] + 1 && p.sq_y[s] + 2 <= bins, "every square lies strictly below the diagonal inside the grid of bins");
@@ -50,13 +60,13 @@ void h_square(void) {
   struct P2 p; struct SquareTask t; struct IntPair sq[2]; int index = nondet_int(), rt = nondet_int();
   __CPROVER_assume(0 <= index && index < 2 && 0 <= rt && rt <= 2);
   mk_bins(&p, 4);
-  for (int k = 0; k < 2; k++) { sq[k].first = nondet_int(); sq[k].second = nondet_int(); __CPROVER_assume(0 <= sq[k].first && sq[k].first < sq[k].second + 1 && sq[k].second + 2 <= 4); }
+  for (int k = 0; k < 2; k++) { sq[k].first = nondet_int(); sq[k].second = nondet_int(); __CPROVER_assume(0 <= sq[k].second && sq[k].second <= 2 && 0 <= sq[k].first && sq[k].first <= sq[k].second); }
   t.executor = &p; t.squares = sq; t.squares_n = 2; t.rangeType = rt;
   int is = p.binStart[sq[index].second + 1], ie = p.binStart[sq[index].second + 2], js = p.binStart[sq[index].first], je = p.binStart[sq[index].first + 1];
   gi = nondet_int(); gj = nondet_int(); g2_cnt = 0; g2_bad = 0; g_lo = js; g_hi = ie;
   SquareTask_execute(&t, index);
   int a = is <= gi && gi < ie && js <= gj && gj < je;      /* (i,j) with i in the row bin, j in the column bin */
   int b = is <= gj && gj < ie && js <= gi && gi < je;      /* its mirror image */
-  __CPROVER_assert(g2_cnt == (rt == FullMatrix ? (a ? 1 : 0) + (b ? 1 : 0) : (a ? 1 : 0)), "SquareTask: each (i,j) of the block (and its mirror for FullMatrix) exactly once, nothing else");
+  __CPROVER_assert(g2_cnt == (rt == FullMatrix ? ((a && b) ? 2 : (a || b) ? 1 : 0) : (a ? 1 : 0)), "SquareTask: each (i,j) of the block (and its mirror for FullMatrix) exactly once, nothing else");
   __CPROVER_assert(!g2_bad, "SquareTask: no invocation outside the rows/columns of the block");
 }
